@@ -152,10 +152,8 @@ def gen_value(rng, shape, extra_for_star, counter):
 def destructure_program(rng, placement=None):
     names = []
     pat, shape = gen_pattern(rng, 2, names)
-    if len(shape) == 1 and shape[0] != ("*",) and "," not in pat:
-        pat += ","
-    if len(shape) == 1 and shape[0] == ("*",):
-        pat += ","
+    if len(shape) == 1:
+        pat += ","          # a one-element pattern (a name, a star, a nested pattern) needs its comma
     val = gen_value(rng, shape, rng.randint(0, 3), [0])
     placement = placement or rng.choice(["global", "local", "class", "captured"])
     show = ", ".join(names)
